@@ -15,6 +15,8 @@ CLAIMS = {
  "C07": "TlsRecordsParser is modelled as init/step over the record-content model; proved: the k-way split theorem by induction over fragments (any cut points, any k, buffer = concatenation so far), the three refusals leave the state unchanged, the 10 MiB buffer bound as an invariant over all operation sequences, idle = fresh as a bisimulation up to the unobservable stale buffer; the debug assertion's absence and both limits are re-read from the source each run; histories (all 2-way cuts, random k-way splits, foreign types, nocopy, reset, reuse, oversize) are run on the real parser with slice regions classified through the verification hook.",
  "C03": "Generic many1(complete(p)) round-trip lemma (list-as-fuel induction) instantiated for ChangeCipherSpec, alert and (parameterised by C04's round-trip) handshake records, with any tail on which the message parser stops; application data and heartbeat(+padding) decoded exactly; one-step = two-step as a corollary of the C02 characterisation; rejection of unknown types, empty and first-bad payloads; the dispatch table is re-read from the source and compared with the expected one on every run.",
  "C16": "tls_parser_many and parse_dtls_plaintext_records are proved equal to an explicit 'iterate the single-record parser while it succeeds' specification for every input (using progress >= 1 byte, the generic no-Failure theorem and the Safe theorems), fail-iff-first-fails as a corollary, tls_parser = parse_tls_plaintext by definition; the check additionally chains the implementation's own single-record parser over each input and compares with its multi-record parser.",
+ "C13": "Round-trip theorems (value modulo slice offsets, exact consumption, untouched remainder) for ServerDHParams, ECParameters in both forms, ServerECDHParams, ECPoint and both DigitallySigned forms against RFC encoders, over the full ranges of all length fields; rejection of every other curve type; parse_content_and_signature characterised for EVERY content parser and both flag values.",
+ "C14": "Round-trip theorems for a single SCT and for SCT lists of any length (generic many0(complete(..)) lemma), every field exact; over-long list gives Incomplete with the exact count; an over-long entry is not decoded (the list stops before it).",
 }
 def chk(pid):
     return {"property_id": pid, "quick_cmd": "./check %s --tier quick" % pid, "thorough_cmd": "./check %s --tier thorough" % pid,
